@@ -289,6 +289,10 @@ func runC18(t *sim.T, tier string) *sim.Violation {
 	sched.AutoFuncThresh = []uint32{0, 0, 1024, 4096, 16384}[t.Choose(5)]
 	if giant {
 		sched.AutoSyncThresh, sched.AutoFuncThresh = 0, 0
+		// 20 000 scheduling decisions do not span two calls of 170 000 rows each (the rest would run one call after
+		// the other): decide every 256th, 4 096th or 16 384th row instead, so that the calls overlap from end to end and
+		// drift tens of thousands of rows apart
+		sched.Stride = []uint32{256, 4096, 16384, 16384}[t.Choose(4)]
 	}
 	// Half of the runs wrap extension objects in the yield proxy (finer pre-emption, before and after
 	// each interface call); the other half pass the bundled extension objects as they are, so that
